@@ -850,7 +850,7 @@ def values_for_cma(repo):
     """CMADeme._values_for_cma: what CMA-ES (a minimiser) is told"""
     from .lazy import canon, return_paths
     src = DEMES["CMADeme"][0]
-    fn = find_def(ast.parse(open(f"{repo}/{src}").read()), "_values_for_cma", "CMADeme")
+    fn = normalise(find_def(ast.parse(open(f"{repo}/{src}").read()), "_values_for_cma", "CMADeme"))
     an = [a.arg for a in fn.args.args]
     if len(an) != 2:
         raise Unsupported(f"{src}:{fn.lineno}: _values_for_cma signature {an}")
@@ -911,14 +911,40 @@ def local_direction(repo):
     if sum(1 for n in ast.walk(fn) if (isinstance(n, ast.FunctionDef) and n.name == fname) or (isinstance(n, ast.Assign) and ast.unparse(n.targets[0]) == fname)) != 2:
         raise Unsupported(f"{src}:{fn.lineno}: LocalDeme.run_metaepoch: the objective handed to scipy is defined elsewhere too")
     # the callback: a COPY of the iterate, with the un-negated value, appended to the run history
+    from .lazy import Inliner, effect_paths
     cb = find_def(mod, "_history_callback", "LocalDeme")
     an = [a.arg for a in cb.args.args]
-    b = [s_ for s_ in cb.body if not (isinstance(s_, ast.Expr) and isinstance(s_.value, ast.Constant))]
-    ok = len(an) == 2 and len(b) == 3 and isinstance(b[0], ast.Assign) and isinstance(b[0].targets[0], ast.Name)
+    if len(an) != 2:
+        raise Unsupported(f"{src}:{cb.lineno}: LocalDeme._history_callback signature {an}")
+    r_ = an[1]
+    cinl = Inliner(cb, src)
+    ok = True
+    seen = {}
+    for conds, done, rv in effect_paths(cb, src, cinl):
+        if rv is not None or len(done) != 2 or len(conds) > 1:
+            ok = False
+            break
+        a_, b_ = done
+        if not (isinstance(a_, ast.Assign) and isinstance(a_.targets[0], ast.Attribute) and a_.targets[0].attr == "fitness" and isinstance(a_.targets[0].value, ast.Name)):
+            ok = False
+            break
+        v_ = a_.targets[0].value.id
+        # the individual: a NEW Individual holding a COPY of the iterate, over the deme's own problem; it is what gets appended
+        defs_ = [s_ for s_ in ast.walk(cb) if isinstance(s_, ast.Assign) and isinstance(s_.targets[0], ast.Name) and s_.targets[0].id == v_]
+        if len(defs_) != 1 or ast.unparse(cinl.inline(defs_[0].value, defs_[0])) != f"Individual(np.copy({r_}.x), problem=self._problem)" \
+                or ast.unparse(b_) != f"self._run_history.append({v_})":
+            ok = False
+            break
+        val = ast.unparse(canon(cinl.inline(a_.value, a_)))
+        if not conds:
+            seen["both"] = val
+        elif ast.unparse(conds[0][0]) == "self._problem.maximize":
+            seen[conds[0][1]] = val
+        else:
+            ok = False
+            break
     if ok:
-        r_, v_ = an[1], b[0].targets[0].id
-        ok = ast.unparse(b[0].value) == f"Individual(np.copy({r_}.x), problem=self._problem)" and isinstance(b[1], ast.Assign) and ast.unparse(b[1].targets[0]) == f"{v_}.fitness" \
-            and ast.unparse(canon(b[1].value)) == f"-{r_}.fun if self._problem.maximize else {r_}.fun" and ast.unparse(b[2]) == f"self._run_history.append({v_})"
+        ok = seen in ({"both": f"-{r_}.fun if self._problem.maximize else {r_}.fun"}, {True: f"-{r_}.fun", False: f"{r_}.fun"})
     if not ok:
         raise Unsupported(f"{src}:{cb.lineno}: LocalDeme._history_callback is not: a new Individual holding a COPY of the iterate, its fitness = -fun for a maximisation problem else fun, appended to the run history")
     return ("(* what scipy minimises, and what the callback records for an iterate x for which scipy reports the value v *)\n"
